@@ -111,6 +111,20 @@ def p8_comment_lines(prog, ctx):
             ctx.obs.append(ob)
 
 
+def p10_p12_imports(prog, ctx):
+    """P10: whether a layered read answers with one file's object (which names its path) or with a merged one (which names none) depends
+    on how many files were found, not on what is in them: the merge of the files found decides on names and order only (= C12.F6).
+    P11: writing an object out does not change what the extended getter then reports - comments included (= C10.Q1 for econf_writeFile).
+    P12: merging does not take comments, values or line numbers away from the objects it is given (= C03.M1)."""
+    from rules import common as _common
+    from rules import C12 as _C12, C10 as _C10, C03 as _C03
+    _common.import_obligations(ctx, prog, [_C12.f6b_f7b], "P10", "one file or a merged result: ", keep=lambda ob: ob.rule == "F6", what="decisions of merge_econf_files")
+    _common.import_obligations(ctx, prog, [_C10.run], "P11", "metadata survives a write: ", keep=lambda ob: "econf_writeFile" in ob.instance,
+                               what="effects of econf_writeFile on its input")
+    _common.import_obligations(ctx, prog, [_C03.run], "P12", "metadata of merged inputs stays with them: ", keep=lambda ob: ob.rule == "M1",
+                               what="effects of the merge on its inputs")
+
+
 def objnorm(text):
     """the object handed on by value (`*kf`, `key_file.x`) or by reference (`kf`, `key_file->x`): the same thing for these rules"""
     t = text.replace("->", ".")
@@ -157,6 +171,7 @@ def success_records_line(prog, ctx, rule):
 
 
 def run(prog, ctx):
+    p10_p12_imports(prog, ctx)
     p8_comment_lines(prog, ctx)
     ma = ModAnalysis(prog, indirect_targets=indirect_table(prog))
     # ---- P1 --------------------------------------------------------------------------------------------------
